@@ -8,6 +8,7 @@ small discrete programs, and faults (failing neighbour operations) between them.
 """
 
 import copy
+import math
 import numpy as np
 import jax
 import jax.numpy as jnp
@@ -62,8 +63,11 @@ def gen_case(rng, tier):
             ops.append({"op": "simulate", "cfg": cfg, "key": rng.randint(0, 2**30)})
         elif r < 0.65:
             ops.append({"op": "simulate_scripted", "sseed": rng.randint(0, 2**30)})
-        elif r < 0.85:
+        elif r < 0.78:
             ops.append({"op": "assess_ref", "rseed": rng.randint(0, 2**30), "cfg": rng.choice(["eager", "eager", "jit"])})
+        elif r < 0.85:
+            # REAL regime, distribution level: probability integral transform of every continuous scalar draw
+            ops.append({"op": "pit", "key": rng.randint(0, 2**30), "n": 500 if tier == "quick" else 1500})
         else:
             k = rng.choice(["assess_missing", "exc_site", "collision", "assess_extra_arity"])
             op = {"op": "fault", "kind": k, "key": rng.randint(0, 2**30)}
@@ -71,6 +75,12 @@ def gen_case(rng, tier):
                 op["at"] = rng.randrange(max(nb, 1))
                 op["method"] = rng.choice(["simulate", "assess"])
             ops.append(op)
+    kw_sites = []
+    progs.walk(c["model"], lambda b, p: kw_sites.append(1) if b.get("kw") else None)
+    if kw_sites and rng.random() < 0.7:
+        # keyword-parameterised sites go through another flattening of the sampler's arguments: check the
+        # distribution of the seeded draws, not only the coherence of each trace
+        ops.append({"op": "pit", "key": rng.randint(0, 2**30), "n": 500 if tier == "quick" else 1500})
     if not any(o["op"] != "fault" for o in ops) or ops[-1]["op"] == "fault":
         ops.append({"op": "simulate", "cfg": "eager", "key": rng.randint(0, 2**30)})
     c["ops"] = ops
@@ -168,6 +178,10 @@ def run_case(case):
                 if not world.close(rv, rr.retval, **gfi.TOL):
                     viol.append(V("wrong_density", "assess_retval_is_program_value",
                                   f"assess retval={world.to_py(rv)} ref={rr.retval}", op="assess", cfg=op["cfg"]))
+            elif kind == "pit":
+                evals += 1
+                probes["pit"] = probes.get("pit", 0) + 1
+                viol += pit_test(gf, model, h, op["key"], op["n"], probes)
             elif kind == "tree":
                 tv, info = run_tree(gf, model, h)
                 viol += tv
@@ -195,6 +209,75 @@ def run_case(case):
             "key": progs.shape_key(model) + "|" + ",".join(hist),
             "nontrivial": bool(comb) or bool(faults),
             "extra": {"trees_complete": probes["tree_complete"]}}
+
+
+def _cdf(d, x, p):
+    import scipy.stats as st
+
+    if d not in ("normal", "normal_s", "laplace", "uniform", "exponential", "gamma", "beta"):
+        return None
+    x = float(x)
+    p = [float(q) for q in p]
+    if d in ("normal", "normal_s"):
+        return st.norm.cdf((x - p[0]) / p[1])
+    if d == "laplace":
+        return st.laplace.cdf((x - p[0]) / p[1])
+    if d == "uniform":
+        return (x - p[0]) / (p[1] - p[0])
+    if d == "exponential":
+        return st.expon.cdf(x * p[0])
+    if d == "gamma":
+        return st.gamma.cdf(x * p[1], p[0])
+    if d == "beta":
+        return st.beta.cdf(x, p[0], p[1])
+    return None
+
+
+def pit_test(gf, model, h, key_int, n, probes):
+    """simulate under seed, vmapped over n keys: for every continuous scalar draw, u = CDF(value; the
+    parameters the reference derives from that trace's earlier choices) must be Uniform(0,1). Two-stage
+    (p < 1e-3 on n traces, then p < 1e-8 on 6n traces with fresh keys)."""
+    import scipy.stats as st
+
+    f = jax.jit(jax.vmap(gpjax.seed(gf.simulate), in_axes=(0, None)))
+
+    def us(key_i, m):
+        trs = f(jax.random.split(jax.random.key(key_i), m), h)
+        chs = gfi.np_choices(trs)
+        out = {}
+        for i in range(m):
+            r = ref.run(model, h, ref.tree_index(chs, i))
+            for s in r.sites:
+                if not s["live"] or np.ndim(s["value"]) != 0:
+                    continue
+                u = _cdf(s["d"], s["value"], s["params"])
+                if u is None and progs.DISTS[s["d"]]["kind"] == "d":
+                    # randomised PIT for a discrete draw: F(k-) + v * p(k) with a reproducible v
+                    sup = ref.support(s["d"], *s["params"])
+                    pm = [math.exp(ref.logpdf(s["d"], v, *s["params"])) for v in sup]
+                    k = [j for j, v in enumerate(sup) if v == s["value"]]
+                    if k:
+                        vrand = ((key_i * 2654435761 + i * 40503 + len(out) * 97) % 1000003) / 1000003.0
+                        u = sum(pm[: k[0]]) + vrand * pm[k[0]]
+                if u is not None:
+                    out.setdefault((tuple(s["path"]), tuple(s["idx"]), s["d"]), []).append(u)
+        return out
+
+    stage1 = us(key_int, n)
+    bad = [k for k, v in stage1.items() if len(v) >= 100 and st.kstest(v, "uniform").pvalue < 1e-3]
+    if not bad:
+        return []
+    probes["pit_stage2"] = probes.get("pit_stage2", 0) + 1
+    stage2 = us(key_int + 1, 6 * n)
+    for k in bad:
+        v = stage2.get(k, [])
+        if len(v) >= 100:
+            pv = st.kstest(v, "uniform").pvalue
+            if pv < 1e-8:
+                return [V("wrong_distribution", "simulate_draws_follow_the_density",
+                          f"seeded simulate over {len(v)} keys: the draws at {'/'.join(k[0])}{list(k[1])} ({k[2]}) do not follow their "
+                          f"conditional density (KS p = {pv:.2e} after p < 1e-3 on a first batch)", op="simulate", cfg="jitvmap")]
+    return []
 
 
 def do_fault(op, model, h, gf):
